@@ -526,8 +526,14 @@ fn lint_triples(ls: &[Lint]) -> String {
 
 /// steps: {"cfg": n} | {"text": s}
 fn lg_history(rep: &mut Report, kinds: &mut std::collections::HashMap<String, usize>, dict: &std::sync::Arc<FstDictionary>, steps: &[Value]) {
-    rep.eval();
     let inp = json!({"kind": "lg_history", "steps": steps});
+    lg_history_as(rep, kinds, dict, steps, "GL", &inp, &mut vec![]);
+}
+/// `tag`: which model answers the lint calls — "GL" the adversarial cache without evictions, "GE" the real LRU with the
+/// capacity of lint_group.rs.  `outs`: what the implementation answered, call by call.
+fn lg_history_as(rep: &mut Report, kinds: &mut std::collections::HashMap<String, usize>, dict: &std::sync::Arc<FstDictionary>, steps: &[Value], tag: &str, inp: &Value, outs: &mut Vec<Vec<Lint>>) {
+    rep.eval();
+    let inp = inp.clone();
     let mut tg = mk_test_group();
     let mut cfg = 0usize;
     rep.case("GN", "ok");
@@ -596,13 +602,14 @@ fn lg_history(rep: &mut Report, kinds: &mut std::collections::HashMap<String, us
                 seen_chunks.insert(chars, sp.start);
             }
         }
-        let case_line = format!("GL|{}|{}|{}", cps(&src), whole.join(";"), chunks.join("|"));
+        let case_line = format!("{tag}|{}|{}|{}", cps(&src), whole.join(";"), chunks.join("|"));
         let out = guarded(|| tg.g.lint(&doc));
         tg.calls += 1;
         match out {
             Ok(ls) => {
                 rep.case(&case_line, lint_triples(&ls).trim());
-                rep.count("lintgroup:lint_call");
+                rep.count(if tag == "GE" { "lintgroup:lint_call(real LRU model)" } else { "lintgroup:lint_call" });
+                outs.push(ls.clone());
                 if cfg & BAD_RULES == 0 {
                     // premises of the theorem hold for rules 0..5: its conclusion must hold on the implementation
                     for l in &ls {
@@ -627,6 +634,114 @@ fn lg_history(rep: &mut Report, kinds: &mut std::collections::HashMap<String, us
     if any_hit_elsewhere {
         rep.count("lintgroup:history_with_a_clause_recurring_at_another_offset");
         rep.nontrivial(&steps.iter().map(|s| s.to_string()).collect::<Vec<_>>());
+    }
+}
+
+/// the capacity `LintGroup::empty()` gives its chunk cache, as tools/tables/c03cache.py read it from lint_group.rs just
+/// before this binary was built (the MODEL gets the same number through the extracted Tables_c03cache.v); it sizes the stream
+fn lru_cap() -> usize {
+    let t = include_str!("../../../coq/Model/Tables_c03cache.v");
+    let at = t.find("lint_group_cache_cap_N : N := ").expect("Tables_c03cache.v: unknown shape") + "lint_group_cache_cap_N : N := ".len();
+    t[at..].chars().take_while(|c| c.is_ascii_digit()).collect::<String>().parse().expect("Tables_c03cache.v: capacity")
+}
+
+/// the `i`-th clause of the eviction stream: distinct characters for distinct `i`, the fastest-changing word first
+fn evict_clause(i: usize) -> String {
+    let l = gen::COMMON.len();
+    let mut ws = vec![gen::COMMON[i % l], gen::COMMON[(i / l) % l]];
+    let mut rest = i / (l * l);
+    while rest > 0 {
+        ws.push(gen::COMMON[rest % l]);
+        rest /= l;
+    }
+    ws.join(" ")
+}
+
+/// A history that OVERFILLS the real chunk cache (capacity 10 000, private): documents of 20..60 clauses, all clauses
+/// distinct, until `lru_cap() + extra` distinct chunks were linted on one `LintGroup::empty()` with the stateful test rules;
+/// after `promote_after` documents the first document is linted again (its entries move to the front); a configuration
+/// change in between (the configuration hash is part of the key); at the end documents 0, 1, 2 and the last two are
+/// linted again: which of their clauses are still served from the cache (old payload of rule 5) depends on promotion and
+/// on exactly which entries were popped.  Every call is compared with the extracted REAL-LRU model (`GE` lines).
+fn evict_steps(seed: u64, extra: usize, promote_after: usize) -> Vec<Value> {
+    let mut r = Rng::new(seed ^ 0x5eed_e71c);
+    let mut docs: Vec<String> = vec![];
+    let mut next = 0usize;
+    while next < lru_cap() + extra {
+        let k = 20 + r.below(41);
+        let clauses: Vec<String> = (next..next + k).map(evict_clause).collect();
+        next += k;
+        let mut text = clauses.join(", ");
+        text.push_str(*r.pick(&[".", ",", ""]));
+        docs.push(text);
+    }
+    let cfg_a = 1 << 3 | 1 << 5;
+    let cfg_b = 1 << 3 | 1 << 4 | 1 << 5;
+    let mut steps = vec![json!({"cfg": cfg_a})];
+    for (i, d) in docs.iter().enumerate() {
+        steps.push(json!({"text": d}));
+        if i + 1 == promote_after {
+            steps.push(json!({"text": docs[0]}));
+        }
+        if i == 3 {
+            // entries under another configuration: same characters, other key
+            steps.push(json!({"cfg": cfg_b}));
+            steps.push(json!({"text": docs[2]}));
+            steps.push(json!({"cfg": cfg_a}));
+        }
+    }
+    let n = docs.len();
+    for i in [0, 1, 2, n - 2, n - 1, 0] {
+        steps.push(json!({"text": docs[i]}));
+    }
+    steps
+}
+
+fn lg_evict_history(rep: &mut Report, dict: &std::sync::Arc<FstDictionary>, seed: u64, extra: usize, promote_after: usize) {
+    let inp = json!({"kind": "lg_evict", "seed": seed, "extra": extra, "promote_after": promote_after});
+    let steps = evict_steps(seed, extra, promote_after);
+    let mut kinds = Default::default();
+    let mut outs: Vec<Vec<Lint>> = vec![];
+    lg_history_as(rep, &mut kinds, dict, &steps, "GE", &inp, &mut outs);
+    // what the implementation did, read off rule 5's payload (200 + number of the call that computed the entry):
+    // a lint of call c with payload 200 + c was computed now (miss), any other payload was served from the cache
+    let n_calls = steps.iter().filter(|s| s.get("text").is_some()).count();
+    if outs.len() != n_calls {
+        rep.fail("eviction_stream_incomplete", format!("the eviction history stopped after {} of {} lint calls", outs.len(), n_calls), inp);
+        return;
+    }
+    let served = |c: usize| -> (usize, usize) {
+        let mut hit = 0;
+        let mut miss = 0;
+        for l in &outs[c] {
+            if let Ok(p) = l.message.parse::<usize>() {
+                if p >= 200 {
+                    if p == 200 + c { miss += 1 } else { hit += 1 }
+                }
+            }
+        }
+        (hit, miss)
+    };
+    // last six calls: documents 0 (promoted: still cached), 1 (popped), 2, n-2, n-1 (recent: cached), 0 again
+    let (h0, m0) = served(n_calls - 6);
+    let (h1, m1) = served(n_calls - 5);
+    let (hl, ml) = served(n_calls - 2);
+    rep.count_n("lintgroup:evict_stream:lints_served_from_cache_after_overfill", (h0 + h1 + hl) as u64);
+    rep.count_n("lintgroup:evict_stream:lints_recomputed_after_overfill", (m0 + m1 + ml) as u64);
+    let evicted_seen = m1 > 0;
+    let promoted_seen = h0 > 0 && m0 == 0;
+    let recent_seen = hl > 0 && ml == 0;
+    if lru_cap() < 1000 {
+        // the promotion pattern below needs room for 12..20 documents before the promotion; the correspondence stands anyway
+        rep.count("lintgroup:evict_stream:capacity_below_1000(pattern not asserted)");
+        return;
+    }
+    rep.monitor("eviction_stream_ineffective", u64::from(!(evicted_seen && promoted_seen && recent_seen)));
+    if !(evicted_seen && promoted_seen && recent_seen) {
+        rep.fail("eviction_stream_ineffective", format!("overfilling the chunk cache with {} distinct clauses did not show the expected LRU pattern: document 0 (promoted) hits {h0} misses {m0}, document 1 (oldest) hits {h1} misses {m1}, last document hits {hl} misses {ml}", lru_cap() + extra), inp);
+    } else {
+        rep.count("lintgroup:history_with_real_evictions(promotion kept doc 0, doc 1 popped)");
+        rep.nontrivial(&format!("lg_evict {seed} {extra} {promote_after}"));
     }
 }
 
@@ -734,8 +849,14 @@ pub fn replay_input(rep: &mut Report, v: &Value, group: &mut LintGroup, dict: &s
         }
         Some("lg_history") => {
             let mut kinds = Default::default();
-            lg_history(rep, &mut kinds, dict, v["steps"].as_array().map(|a| a.as_slice()).unwrap_or(&[]))
+            let steps = v["steps"].as_array().map(|a| a.as_slice()).unwrap_or(&[]);
+            if v["model"].as_str() == Some("lru") {
+                lg_history_as(rep, &mut kinds, dict, steps, "GE", v, &mut vec![])
+            } else {
+                lg_history(rep, &mut kinds, dict, steps)
+            }
         }
+        Some("lg_evict") => lg_evict_history(rep, dict, v["seed"].as_u64().unwrap_or(1), v["extra"].as_u64().unwrap_or(100) as usize, v["promote_after"].as_u64().unwrap_or(3) as usize),
         Some("premise") => premise_monitor(rep, &real_pattern_rules(), v["frontend"].as_str().unwrap_or("plain"), v["text"].as_str().unwrap_or(""), dict),
         Some("recurrence") => recurrence_run(rep, dict, v["trigger"].as_str().unwrap_or(""), v["text1"].as_str().unwrap_or(""), v["text2"].as_str().unwrap_or(""),
             v["pos1"].as_u64().unwrap_or(0) as usize, v["pos2"].as_u64().unwrap_or(0) as usize, v["same_doc"].as_bool().unwrap_or(false)),
@@ -795,6 +916,20 @@ pub fn run(a: &Args, corpus: &[Value]) {
             let steps = gen_lg_history(&mut r);
             lg_history(&mut rep, &mut kinds, &dict, &steps);
         }
+        // the same kind of histories against the REAL-LRU model (no eviction happens: both models must agree with the code)
+        for _ in 0..a.scale(40, 500) {
+            let steps = gen_lg_history(&mut r);
+            let inp = json!({"kind": "lg_history", "model": "lru", "steps": steps});
+            lg_history_as(&mut rep, &mut kinds, &dict, &steps, "GE", &inp, &mut vec![]);
+        }
+    }
+    // ... and histories that overfill the cache: real evictions, promotion on get
+    for i in 0..a.scale(1, 4) {
+        // at most 99 + 60 entries are popped before the final calls; the >= 11 documents linted before the promotion of
+        // document 0 hold >= 220 older entries, so document 0 must survive and document 1 (<= 60 entries, >= 110 popped) must be gone
+        let extra = 50 + r.below(50);
+        let promote_after = 12 + r.below(8);
+        lg_evict_history(&mut rep, &dict, a.seed.wrapping_add(i as u64), extra, promote_after);
     }
     if a.thorough() {
         // exhaustive: all texts of length <= 6 over {a,b}, all spans, 3 kinds x replacement in {"", "x", same-length "xx.."}
